@@ -79,6 +79,7 @@ impl LaFamily {
 
 #[derive(Default)]
 struct Acc {
+    long: Vec<serde_json::Value>,
     cfgs: usize,
     scans: usize,
     nontrivial: usize,
@@ -93,6 +94,7 @@ struct Acc {
 }
 
 fn merge(a: &mut Acc, b: Acc) {
+    a.long.extend(b.long);
     a.cfgs += b.cfgs;
     a.scans += b.scans;
     a.nontrivial += b.nontrivial;
@@ -306,7 +308,7 @@ pub fn run(prop: &'static str, tier: Tier) -> ! {
                 // a wrong stream on a lookahead configuration is reported by both C04 and C05
                 acc.viol.add("", || Violation { key: String::new(), summary: format!("{name}: {d}"), replay: json!({"case": name, "configuration": cfg.to_json(), "input_bytes": input.len(), "input_prefix": input.chars().take(60).collect::<String>(), "disagreement": d}) });
             }
-            acc.samples.push(|| json!({"family": "long inputs", "case": name, "input_bytes": input.len(), "tokens": n}));
+            acc.long.push(json!({"case": name, "input_bytes": input.len(), "tokens_compared": n, "positions_with_competing_patterns": competed}));
         });
         for a in accs {
             merge(&mut total, a);
@@ -472,6 +474,7 @@ pub fn run(prop: &'static str, tier: Tier) -> ! {
     cov.insert("positions_with_two_or_more_candidates".into(), json!(total.stats.multi_candidates));
     cov.insert("positions_with_competing_patterns".into(), json!(total.stats.competed));
     cov.insert("scans_from_nonzero_offset".into(), json!(total.offsets_nonzero));
+    cov.insert("long_input_cases".into(), json!(total.long));
     cov.insert("families".into(), json!(families));
     cov.insert("disagreeing_configurations".into(), json!(n_disagreeing));
     cov.insert("disagreements_belonging_to_other_properties".into(), json!(total.other_kinds));
